@@ -517,6 +517,8 @@ var queryFamily = map[string]string{
 	"xattr":  `SELECT json_quote(id) AS id, xattrs->'$._sync' AS sync FROM $_keyspace WHERE xattrs->'$._sync' IS NOT NULL`,
 	"count":  `SELECT count(*) AS n FROM $_keyspace`,
 	"xnull":  `SELECT json_quote(id) AS id FROM $_keyspace WHERE xattrs IS NULL`,
+	"idnum":  `SELECT json_quote(id) AS id FROM $_keyspace WHERE id = 'k' || $n`,
+	"veq":    `SELECT json_quote(id) AS id FROM $_keyspace WHERE json_type(body, '$.v') = 'integer' AND body->>'$.v' = $n`,
 }
 
 func (e *e1) expectedQuery(coll int, kind string, args map[string]any) []string {
@@ -547,6 +549,14 @@ func (e *e1) expectedQuery(coll int, kind string, args map[string]any) []string 
 			if s, ok := doc["s"].(string); ok && s == args["s"].(string) {
 				rows = append(rows, canonKey(map[string]any{"id": id}))
 			}
+		case "idnum":
+			if id == fmt.Sprintf("k%d", intArg(args["n"])) {
+				rows = append(rows, canonKey(map[string]any{"id": id}))
+			}
+		case "veq":
+			if v, ok := doc["v"].(float64); ok && v == float64(intArg(args["n"])) && v == float64(int64(v)) {
+				rows = append(rows, canonKey(map[string]any{"id": id}))
+			}
 		case "xnull":
 			// a document without xattrs looks the same to a query whichever way it came to have none
 			if len(d.X) == 0 {
@@ -570,6 +580,9 @@ func (e *e1) doQuery(op *Op) *Violation {
 	var args map[string]any
 	if op.Body != nil {
 		_ = json.Unmarshal([]byte(*op.Body), &args)
+	}
+	if f, ok := args["n"].(float64); ok && (op.Path == "idnum" || op.Path == "veq") {
+		args["n"] = int(f) // passed as a Go int, as callers do
 	}
 	stmt := queryFamily[op.Path]
 	adhoc := op.Amt&1 == 0
@@ -663,4 +676,16 @@ func (e *e1) doQuery(op *Op) *Violation {
 		e.probe("query.nonempty")
 	}
 	return nil
+}
+
+func intArg(v any) int64 {
+	switch n := v.(type) {
+	case int:
+		return int64(n)
+	case int64:
+		return n
+	case float64:
+		return int64(n)
+	}
+	return 0
 }
